@@ -47,7 +47,7 @@ func props() map[string]*propCfg {
 	add(&propCfg{ID: "C06", Level: "exploration", Families: []famWeight{{"codec6", 2, false}, {"mesh", 1, false}, {"frag", 1, false}}, QuickRuns: 4000, ThorSecs: 600})
 	add(&propCfg{ID: "C07", Level: "exploration", Families: []famWeight{{"close", 1, false}}, QuickRuns: 4000, ThorSecs: 600})
 	add(&propCfg{ID: "C08", Level: "exploration", Families: []famWeight{{"relay", 1, false}}, QuickRuns: 4000, ThorSecs: 600})
-	add(&propCfg{ID: "C09", Level: "exploration", Families: []famWeight{{"relay", 1, false}}, QuickRuns: 4000, ThorSecs: 600})
+	add(&propCfg{ID: "C09", Level: "exploration", Families: []famWeight{{"relay", 3, false}, {"cancel", 1, false}}, QuickRuns: 4000, ThorSecs: 600})
 	add(&propCfg{ID: "C10", Level: "exploration", Families: []famWeight{{"rawclient", 2, false}, {"relay", 1, false}}, QuickRuns: 6000, ThorSecs: 600})
 	add(&propCfg{ID: "C11", Level: "exploration", Families: []famWeight{{"mesh", 1, false}, {"relay", 1, false}, {"hostile", 1, false}, {"close", 1, false}, {"pressure", 1, false}, {"poison", 1, false}, {"conns", 1, false}}, QuickRuns: 4000, ThorSecs: 600})
 	add(&propCfg{ID: "C12", Level: "exploration", Families: []famWeight{{"mesh", 1, false}, {"relay", 1, false}, {"hostile", 1, false}, {"frag", 1, false}, {"pressure", 1, false}, {"poison", 1, false}}, QuickRuns: 4000, ThorSecs: 600})
